@@ -36,6 +36,21 @@ def jsonable(x, depth=0):
     return repr(x)
 
 
+GENERIC_REPLAY = '''
+# no minimal program was recorded for this clause: the failing case above is reproduced by re-running the
+# bounded stand-in of the property with the same tier and seed (exit status 1 when the clause fails again)
+import json, os, subprocess, sys
+env = dict(os.environ, PYTHONPATH=os.environ.get("PYVC_REPO", "/repo") + ":/verif", PYTHONDONTWRITEBYTECODE="1")
+out = "/tmp/replay_{prop}_{clause}.json"
+subprocess.call([sys.executable, "-m", "bounded.run", "{prop}", "--tier", "{tier}", "--seed", "{seed}", "--out", out],
+                cwd=os.environ.get("PYVC_REPO", "/repo"), env=env)
+fails = [f for f in json.load(open(out))["failures"] if f["clause"] == "{clause}"]
+for f in fails[:5]:
+    print("FAIL", f["clause"], f["what"][:300], f["case"])
+sys.exit(1 if fails else 0)
+'''
+
+
 def replay_model(eng, prop, o):
     """-> (exit status of the replay program, its path, its last output line) or None when not applicable"""
     from . import replay_gen
@@ -443,7 +458,7 @@ def _main(a, t0):
             rp = os.path.join(VERIF, "replays", prop, f"bounded_{f['clause']}_{i}.py")
             with open(rp, "w") as fh:
                 fh.write(f"# property {prop}, bounded stand-in clause {f['clause']}\n# {f['what']}\n# case: {f['case']}\n")
-                fh.write(f.get("replay") or "")
+                fh.write(f.get("replay") or GENERIC_REPLAY.format(prop=prop, tier=a.tier, seed=a.seed, clause=f["clause"]))
             violations.append((rp, f"bounded clause {f['clause']}: {f['what'][:200]}", True))
     concrete = bool(violations)
     bounded_replays = [v[0] for v in violations]
